@@ -8,6 +8,7 @@ import (
 	"fmt"
 	"io"
 	"io/ioutil"
+	"runtime"
 	"sync"
 	"time"
 
@@ -582,13 +583,13 @@ func c19Stalled(r *vhlib.Run) {
 	for _, s := range stalls {
 		n := s.calls()
 		want := s.run(newGate(-1))
-		ats := []int{1, n, n - 1, n - 2, 1 + rng.Intn(n)}
+		ats := []int{1, n, n - 1, n - 2, 1 + rng.Intn(n), (n + 1) / 2}
 		if !r.Quick() {
 			for k := 0; k < 12; k++ {
 				ats = append(ats, 1+rng.Intn(n))
 			}
 		}
-		for _, at := range ats {
+		for ai, at := range ats {
 			if at < 1 || at > n {
 				continue
 			}
@@ -603,6 +604,32 @@ func c19Stalled(r *vhlib.Run) {
 				}
 				continue
 			}
+			// for the first, a random and the middle position also park a crowd of further instances of the same type at the same
+			// call (more than there are processors): a package-wide pool of slots held across the call
+			var crowd []*gate
+			crowdDone := make(chan string, 64)
+			if ai == 0 || ai == 4 || ai == 5 {
+				for k := 0; k < runtime.GOMAXPROCS(0)+2 && k < 40; k++ {
+					cg := newGate(at)
+					crowd = append(crowd, cg)
+					go func() { crowdDone <- s.run(cg) }()
+				}
+				for _, cg := range crowd {
+					select {
+					case <-cg.entered:
+					case <-time.After(20 * time.Second):
+					}
+				}
+			}
+			defer func(crowd []*gate) {
+				for _, cg := range crowd {
+					select {
+					case <-cg.release:
+					default:
+						close(cg.release)
+					}
+				}
+			}(crowd)
 			done := make(chan struct{})
 			go func() { others(); close(done) }()
 			stalled := false
@@ -612,7 +639,16 @@ func c19Stalled(r *vhlib.Run) {
 				stalled = true
 			}
 			close(g.release)
+			for _, cg := range crowd {
+				close(cg.release)
+			}
 			got := <-res
+			for range crowd {
+				if cgot := <-crowdDone; cgot != want && !stalled {
+					r.Violate("result-differs-under-concurrency", fmt.Sprintf("%s: result after having been parked in a crowd differs from the result alone", s.name), map[string]interface{}{"instance": s.name, "call": at})
+					break
+				}
+			}
 			if stalled {
 				<-done
 			}
